@@ -306,6 +306,25 @@ fn touch(w: &mut Wd) -> Value {
     json!({"n": n, "bad": bad, "toks": toks, "res": res_json(w)})
 }
 
+/// Resolve every identifier issued at set-up through `World::entry` and read what it lands on.
+fn probe_ids(w: &mut Wd, ids: &[Identifier]) -> Value {
+    let mut out = Vec::new();
+    for id in ids {
+        let con = w.contains(*id);
+        let mut toks = Vec::new();
+        let mut bad = 0;
+        if let Some(mut e) = w.entry(*id) {
+            if let Some(result!(ps, pw, ph)) = e.query(Query::<Views!(Option<&S>, Option<&W>, Option<&H>)>::new()) {
+                if let Some(x) = ps { let o = x.obs(); if !o.ok { bad += 1; } toks.push(json!(["S", o.t])); }
+                if let Some(x) = pw { let o = x.obs(); if !o.ok { bad += 1; } toks.push(json!(["W", o.t])); }
+                if let Some(x) = ph { let o = x.obs(); if !o.ok { bad += 1; } toks.push(json!(["H", o.t])); }
+            }
+        }
+        out.push(json!({"con": con, "bad": bad, "toks": toks}));
+    }
+    Value::Array(out)
+}
+
 fn dry_count(op: &str) -> Vec<(u32, u64)> {
     let mut ws = prepare(op);
     pre(op, &mut ws);
@@ -371,7 +390,16 @@ fn main() {
                 }
             }
         }
-        writeln!(out, "{}", json!({"ev": "touch", "i": i, "worlds": touched, "panicked": touch_panicked, "led": led_json(), "heap": heap_json()})).unwrap();
+        // ... and resolve every identifier of world a (the location index must have stayed consistent)
+        let mut probes = json!([]);
+        if let Some(w) = ws.a.as_mut() {
+            let idl = ws.ids.clone();
+            match catch_unwind(AssertUnwindSafe(|| probe_ids(w, &idl))) {
+                Ok(v) => probes = v,
+                Err(_) => touch_panicked = true,
+            }
+        }
+        writeln!(out, "{}", json!({"ev": "touch", "i": i, "worlds": touched, "probes": probes, "panicked": touch_panicked, "led": led_json(), "heap": heap_json()})).unwrap();
         out.flush().unwrap();
         // phase 3: the worlds can still be dropped
         let mut drop_panicked = false;
